@@ -59,6 +59,9 @@ THEOREMS = [
     "offset_variants",
     "energy_offset",
     "measured_energy_offset",
+    "increase_cutoff_spec",
+    "cutoff_never_decreases",
+    "cutoff_after_step",
     "timestep_order",
     "timestep_invariant",
     "free_refresh_spec",
